@@ -13,7 +13,7 @@ demo_dir=$(python3 -c "import json;print(json.load(open('$dir/meta.json')).get('
 demo_cmd=$(python3 -c "
 import json,re,sys
 c=json.load(open('$dir/meta.json')).get('demo_cmd','')
-c=re.sub(r'/tmp/mut/C[0-9]+(?:r[0-9])?(?![0-9.])', '$wt', c)
+c=re.sub(r'/tmp/mut/C[0-9]+(?:r[0-9])?(?![0-9.a-z])', '$wt', c)
 c=c.replace('<repo>', '$wt').replace('<worktree>', '$wt')
 print(c)")
 echo "== demo_dir=$demo_dir demo_cmd=$demo_cmd"
